@@ -202,6 +202,7 @@ func (g *GenCfg) genCase(t *rapid.T, prop string) *Case {
 		c.Cfg.CollSet, c.Cfg.CollLimit = false, 0
 	}
 	c.Cfg.Workers = rapid.SampledFrom([]int{1, 2, 3, 8}).Draw(t, "cfgworkers")
+	c.Cfg.LedgerAPI = rapid.IntRange(0, 3).Draw(t, "ledgerapi") == 0
 	n := rapid.IntRange(g.MinOps, g.MaxOps).Draw(t, "nops")
 	c.Ops = make([]Op, n)
 	for i := range c.Ops {
